@@ -14,7 +14,7 @@ EVID = os.environ.get("VERIF_EVID", os.path.join(ROOT, "evidence"))
 REPLAY_DIR = os.path.join(WORK, "replay")
 TLA_CP = "/opt/veriftools/tla/tla2tools.jar:/opt/veriftools/tla/CommunityModules-deps.jar"
 NCPU = os.cpu_count() or 4
-JOBS = max(2, min(14, NCPU - 2))
+JOBS = int(os.environ.get("VERIF_JOBS", max(2, min(14, NCPU - 2))))   # parallel single-worker TLC JVMs
 
 sys.path.insert(0, os.path.join(ROOT, "lib"))
 import chessfmt  # noqa
